@@ -33,6 +33,7 @@ CONSTANTS
     Budget,      \* total ops over the behaviour (after the init step)
     MaxSteps,    \* driver steps (including the init step)
     InitOps,     \* ops of the first driver step
+    RcSys,       \* pre-spawned systems created with spawn_rc_system_command: the driver holds their AutoDespawnSignal (op rcdrop)
     Excl,        \* pre-spawned systems that are exclusive (`&mut World`) systems: no accessor params, ops through world.commands()
     AppRegs,     \* reactors registered at start-up with App::add_reactor (one bundle each, persistent): systems after the world reactors
     StepKinds,   \* subset of {"ops","gc","poll","clear"}
@@ -91,11 +92,11 @@ WInit0 ==
       nextK |-> 1, nextD |-> 1, nextP |-> 1, nextTok |-> 1, nextR |-> 1,
       budget |-> Budget, step |-> 0,
       tok |-> <<>>, oncetok |-> <<>>, armed |-> {},
-      sysmode |-> [ s \in Sys |-> 0 ], regd |-> {}, onceUsed |-> 0,
+      sysmode |-> [ s \in Sys |-> IF s \in RcSys THEN 1 ELSE 0 ], regd |-> {}, onceUsed |-> 0, rcheld |-> RcSys,
       prog |-> [steps |-> <<>>, scripts |-> <<>>] ]
 
 CfgRec == [t |-> "cfg", nsys |-> NSys, nonce |-> NOnce, nent |-> NEnt, nworld |-> NW, neworld |-> NER, hier |-> Hier,
-           app |-> AppRegs, appsys |-> NApp,
+           app |-> AppRegs, appsys |-> NApp, rcsys |-> SeqOfSet(RcSys),
            kinds |-> [ i \in 1..NSys |-> IF i \in Excl THEN "excl" ELSE "plain" ]]
 
 ----------------------------------------------------------------------------
@@ -550,6 +551,9 @@ IssueW(x, op0) ==
       [] n \in {"rm", "desp", "desprec"} -> [w |-> x, ret |-> IF op[2] \in x.aliveE THEN 1 ELSE 0]
       [] n \in {"xrm", "xdesp", "xdesprec"} -> [w |-> x, ret |-> 1]
       [] n = "despsys" -> [w |-> x, ret |-> IF op[2] \in x.alive THEN 1 ELSE 0]
+      \* dropping the signal of a reference-counted system command takes effect at once: the entity is sent to the collector
+      [] n = "rcdrop" -> IF op[2] \in x.rcheld THEN [w |-> [x EXCEPT !.rcheld = @ \ {op[2]}, !.gcChan = Append(@, op[2])], ret |-> 1]
+                         ELSE [w |-> x, ret |-> 0]
       [] n = "reg" ->
             [w |-> [x EXCEPT !.tok = IF op[5] > 0 THEN Put(@, op[5], [s |-> op[3], b |-> op[4]]) ELSE @,
                              !.nextTok = IF op[5] >= @ THEN op[5] + 1 ELSE @,
@@ -601,6 +605,7 @@ FreeOp(x, cur, OpNames_, go(_)) ==
     \/ "sset" \in OpNames_ /\ \E e \in Ents, t \in Tys, v \in 1..NVal : Holders(x, t) = {e} /\ go(<<"sset", e, t, v>>)
     \/ "sno" \in OpNames_ /\ \E e \in Ents, t \in Tys, v \in 1..NVal : Holders(x, t) = {e} /\ go(<<"sno", e, t, v>>)
     \/ "despsys" \in OpNames_ /\ \E s \in Targets(x) : go(<<"despsys", s>>)
+    \/ "rcdrop" \in OpNames_ /\ \E s \in RcSys : go(<<"rcdrop", s>>)
     \/ "reg" \in OpNames_ /\ \E md \in Modes, s \in 1..NSys, b \in Bundles :
             /\ x.sysmode[s] # 2 /\ ~(x.sysmode[s] = 1 /\ md # "persistent")
             /\ \A j \in DOMAIN b : <<s, b[j]>> \notin x.regd
